@@ -56,7 +56,7 @@ for act in job["actions"]:
             n = len(h.msgs)
             cons.append((act["cfgid"], FileAnonymizer(**act["cfg"]), [m for m in h.msgs[n:]]))
             fa = cons[-1][1]
-            out.append({"a": "construct", "salt": fa.salt, "log": cons[-1][2]})
+            out.append({"a": "construct", "salt": fa.salt, "log": cons[-1][2], "generated": act["cfg"].get("salt") is None})
         else:
             cfgid, fa, _ = cons[act["k"] - 1]
             buf = io.StringIO()
@@ -105,13 +105,11 @@ def replay_history(hist):
                     follow.append((res["salt"], res["inp"]))
                 ev.append({"ev": "run", "cfg": cfg, "inp": res["inp"], "out": res["out"], "where": "proc %d seed %s" % (pi + 1, seed)})
                 info.append(("run", "%s/%s in process %d (hash seed %s): %s" % (cfg, res["inp"], pi + 1, {2: "random"}.get(seed, seed), res["head"][:120].replace("\n", "|"))))
-            elif res["a"] == "construct" and res["salt"] and any("randomly generated" in m for m in res["log"]):
-                # the generated salt must be the reported one
-                m = [re.search(r'using randomly generated "(.*)"', x) for x in res["log"]]
-                rep = [x.group(1) for x in m if x]
-                if rep != [res["salt"]]:
-                    ev.append({"ev": "exc", "what": "generated salt %r not reported (log: %r)" % (res["salt"], res["log"])})
-                    info.append(("salt-report", "mismatch"))
+            elif res["a"] == "construct" and res.get("generated"):
+                # no salt was supplied: the generated one must be reported (WARNING or above, any wording)
+                if not any(str(res["salt"]) in m for m in res["log"]):
+                    ev.append({"ev": "exc", "what": "generated salt %r not reported at WARNING level or above (log: %r)" % (res["salt"], res["log"])})
+                    info.append(("salt-report", "missing"))
     # re-running with the reported salt reproduces the output (fresh process, other hash seed)
     for salt, inp in follow[:2]:
         cfg = dict(CFGS["nosalt"], salt=salt)
